@@ -15,6 +15,8 @@ def main():
             for o in r["outcomes"]: outc[o] += 1
             for p, what, replay in r["fails"]:
                 key = re.sub(r"'[^']*'|\b[\w.]+\.[\w.]+\b|\d+", "_", what)[:110]
+                if os.environ.get("PROBE_FACTS"):
+                    key = key.split(":")[-1][:60] + " | " + ",".join(k for k in ("private_class","private_path","module_reexported","reexport_stub","in_moved_module_stub","returned_variable_name") if replay.get(k))
                 hist[key] += 1
                 ex.setdefault(key, (what, r["seed"], replay.get("options")))
     print(outc)
